@@ -27,34 +27,34 @@ PROPS["C13"] = {
         {
             "pkg": "internal/strobe", "configs": ["default", "purego"],
             "tests": {
-                "TestC13StrobeOps": T(20000, 1000000),
-                "TestC13Keccak": T(20000, 2000000),
+                "TestC13StrobeOps": T(60000, 1000000),
+                "TestC13Keccak": T(60000, 2000000),
                 "TestC13KeccakBits": LIST(),
             },
         },
         {
             "pkg": "primitives/merlin", "configs": ["default", "purego"],
             "tests": {
-                "TestC13History": T(30000, 2000000),
+                "TestC13History": T(90000, 2000000),
                 "FuzzC13History": FUZZ(90, configs=["default"]),
-                "TestC13Twin": T(4000, 150000),
-                "TestC13Injective": T(20000, 600000),
+                "TestC13Twin": T(12000, 150000),
+                "TestC13Injective": T(60000, 600000),
             },
         },
         {
             "pkg": "internal/strobe", "configs": ["force32bit"],
             "tests": {
-                "TestC13StrobeOps": T(4000, 100000),
-                "TestC13Keccak": T(4000, 200000),
+                "TestC13StrobeOps": T(12000, 100000),
+                "TestC13Keccak": T(12000, 200000),
                 "TestC13KeccakBits": LIST(),
             },
         },
         {
             "pkg": "primitives/merlin", "configs": ["force32bit"],
             "tests": {
-                "TestC13History": T(6000, 200000),
-                "TestC13Twin": T(1000, 20000),
-                "TestC13Injective": T(4000, 60000),
+                "TestC13History": T(18000, 200000),
+                "TestC13Twin": T(3000, 20000),
+                "TestC13Injective": T(12000, 60000),
             },
         },
     ],
